@@ -154,6 +154,17 @@ func tagsOf(vs ...*model.V) []string {
 					add("string-holes")
 				}
 			}
+			// two dict entries with one key
+			keys := map[string]bool{}
+			for _, e := range x.Elems {
+				if a, ok := e.SugarAttr(); ok && a == "@value" {
+					at, _ := e.Get("@")
+					if keys[at.Key()] {
+						add("dict-multi")
+					}
+					keys[at.Key()] = true
+				}
+			}
 		})
 	}
 	if !seen["bytes-sparse"] && bytesTransientSparse(vs) {
